@@ -222,7 +222,7 @@ def run_unit(it, paths, prop, unit, tier, seed, log):
     jobs = int(os.environ.get('VERIF_JOBS', '16'))
     split = unit.get('split', {}).get(tier, unit.get('split', {}).get('quick', 6)) if isinstance(unit.get('split'), dict) else unit.get('split', 6)
     cap = unit.get('time_cap', {}).get(tier, 900 if tier == 'quick' else 7200)
-    res = dict(harness=fn, params=params, status='pass', violations=[], known=[], notes=[])
+    res = dict(harness=fn, unit=unit.get('name', fn), params=params, status='pass', violations=[], known=[], notes=[])
     it.params = params
     it.stats = fresh_stats()
     it.cover_hits = {}
